@@ -124,3 +124,40 @@ func VerifC19FarPointer(k, nl, ll int) {
 func VerifC19Shifted(units, x, k int) {
 	verifC19Compare(verifShifted(units, x, k))
 }
+
+// VerifC19EditInPlace: names of shapes s1..s3 are encoded and parsed; then ONE element of the
+// parsed list is overwritten in place (l.Labels[idx] = fresh name of shape t; swap != 0: two
+// elements are exchanged instead) — the list header the library handed out is kept. The result
+// must encode the edited list.
+func VerifC19EditInPlace(s1, s2, s3, idx, t, swap int) {
+	all, _ := verifNames([]int{s1, s2, s3})
+	src := refEncode(all)
+	l, err := FromBytes(src)
+	verifAssert(err == nil, "decode-ok")
+	if err != nil || len(l.Labels) != len(all) || idx >= len(all) {
+		verifReach("end")
+		return
+	}
+	want := append([][][]byte(nil), all...)
+	if swap != 0 {
+		j := (idx + 1) % len(all)
+		l.Labels[idx], l.Labels[j] = l.Labels[j], l.Labels[idx]
+		want[idx], want[j] = want[j], want[idx]
+	} else {
+		freshLabels, fresh := verifName(shapeLens(t))
+		l.Labels[idx] = fresh
+		want[idx] = freshLabels
+	}
+	out := l.ToBytes()
+	verifAssert(verifSame(out, refEncode(want)), "edited-names-are-encoded")
+	verifAssert(l.Length() == len(refEncode(want)), "length-of-edited-list")
+	verifReach("end")
+}
+
+func shapeLens(s int) []int {
+	var lens []int
+	for d := s; d > 0; d /= 100 {
+		lens = append(lens, d%100)
+	}
+	return lens
+}
